@@ -577,13 +577,20 @@ impl PageCacheLike for LruPageCache {
 pub struct SingleAdapter {
     cache: SingleLruPageCache,
     into_buffer: bool,
+    /// Some: every `read` goes into this one caller-owned buffer, never cleared by the caller (the documented way to
+    /// avoid an allocation per read); None: a fresh buffer per read
+    reused: Option<std::sync::Mutex<CacheBuffer>>,
 }
 impl PageCacheLike for SingleAdapter {
     fn open(&self, p: &Path) -> Result<u32, String> {
         self.cache.open_file(p).map_err(|e| e.to_string())
     }
     fn read(&self, f: u32, off: u64, len: usize) -> Result<Vec<u8>, String> {
-        if self.into_buffer {
+        if let Some(shared) = &self.reused {
+            let mut b = shared.lock().unwrap();
+            self.cache.read(f, off, len, &mut b).map_err(|e| e.to_string())?;
+            Ok(b.data().to_vec())
+        } else if self.into_buffer {
             let mut b = CacheBuffer::new();
             self.cache.read(f, off, len, &mut b).map_err(|e| e.to_string())?;
             Ok(b.data().to_vec())
@@ -883,11 +890,13 @@ fn register_page_caches(reg: &mut zverif::Registry) {
         depth_quick: 1,
         depth_thorough: 2,
     }));
-    for (pages, into_buffer) in [(1usize, false), (2, true)] {
+    for (pages, into_buffer, reuse) in [(1usize, false, false), (2, true, false), (2, true, true)] {
         reg.add(Seq(PcSpec {
-            name: format!("SingleLruPageCache[pages={pages},{}]", if into_buffer { "read" } else { "read_new" }),
+            name: format!("SingleLruPageCache[pages={pages},{}]", if reuse { "read into one reused buffer" } else if into_buffer { "read" } else { "read_new" }),
             make: Box::new(move || {
-                SingleLruPageCache::new(page_cfg(pages)).map(|c| Box::new(SingleAdapter { cache: c, into_buffer }) as Box<dyn PageCacheLike>).map_err(|e| e.to_string())
+                SingleLruPageCache::new(page_cfg(pages))
+                    .map(|c| Box::new(SingleAdapter { cache: c, into_buffer, reused: if reuse { Some(std::sync::Mutex::new(CacheBuffer::new())) } else { None } }) as Box<dyn PageCacheLike>)
+                    .map_err(|e| e.to_string())
             }),
             straddle_eof: false,
             depth_quick: 3,
